@@ -3,7 +3,7 @@ import time, re
 import z3
 from ..driver import load_mir, REPO
 from ..layout import Layouts
-from ..vm import VM, Machine, Struct, Enum, Seq, Ref, SliceRef, Closure, Opaque, UNIT, NONE, SOME, OK, ERR, ret, VMError
+from ..vm import VM, Machine, Struct, Enum, Seq, Ref, SliceRef, Closure, Opaque, UNIT, NONE, SOME, OK, ERR, ret, VMError, Unmodelled
 from ..alg import RealAlg, FP64Alg, FPUAlg, Fl
 from ..mathenv import MathEnv, install_misc
 from ..intrinsics import deref_val
@@ -24,7 +24,7 @@ def run(rep):
     closures_fp(rep, mir, L)
     lowrank_guards(rep, mir, L)
     from ..driver import parts
-    parts(rep, [lambda: initial_matrix(rep, mir, L), lambda: inner_matrix(rep, mir, L), lambda: too_few_draws(rep, mir, L), lambda: other_mutators(rep, mir, L)])
+    parts(rep, [lambda: initial_matrix(rep, mir, L), lambda: inner_matrix(rep, mir, L), lambda: too_few_draws(rep, mir, L), lambda: other_mutators(rep, mir, L)] + [(lambda n=n: rescale_points(rep, mir, L, n)) for n in ((3,) if rep.tier == 'quick' else (3, 4, 5))])
 
 # ------------------------------------------------------------------------------------------------
 def exactness(rep, mir, L, n):
@@ -268,6 +268,54 @@ def initial_matrix(rep, mir, L):
     rep.absorb_vm(vm); rep.cover('C08.4 update_diag_grad has a feasible path', nok > 0)
     if bad: rep.violated('C08.4 initial mass matrix', 'diag.initial', 'DiagMassMatrix::update_diag_grad: %s' % (bad[0],), model={'problems': [str(b)[:300] for b in bad[:5]]})
 
+
+def rescale_points(rep, mir, L, n, d=2):
+    """C08.8  rescale_points (the coordinate-wise first stage of the low-rank estimator) on n draws of a Gaussian coordinate, over exact reals:
+    the returned scale is the coordinate's standard deviation and the returned translation its mean, the rescaled and centred gradients are the
+    negated rescaled and centred draws (whitened: gradient = -position), and the reported pre-centring means are those of the rescaled window."""
+    from .. import cpuenv
+    t0 = time.time(); A = RealAlg(); vm = VM(mir, A, inst={}); install_misc(vm); cpuenv.install_linalg(vm)
+    hits = [f for f in mir.fns if re.search(r'(^|::)rescale_points$', f)]
+    if len(hits) != 1: rep.unknown('C08.8 rescale_points not found'); return
+    fn = mir.get(hits[0])
+    mean = [z3.Real('gauss_mean_%d' % i) for i in range(d)]; sd = [z3.Real('gauss_sd_%d' % i) for i in range(d)]
+    xs = [[z3.Real('x_%d_%d' % (i, j)) for j in range(n)] for i in range(d)]
+    gs = [[-(xs[i][j] - mean[i]) / (sd[i] * sd[i]) for j in range(n)] for i in range(d)]
+    m = Machine(); cd = m.alloc(Seq([Seq([Fl(xs[i][j]) for i in range(d)]) for j in range(n)])); cg = m.alloc(Seq([Seq([Fl(gs[i][j]) for i in range(d)]) for j in range(n)]))
+    pre = [sd[i] > 0 for i in range(d)] + [z3.Or(*[xs[i][j] != xs[i][0] for j in range(1, n)]) for i in range(d)]
+    try: outs = vm.run(fn, [Ref(cd), Ref(cg)], m)
+    except (Unmodelled, VMError) as e:
+        rep.unknown('C08.8 rescale_points', '%s: %s' % (type(e).__name__, str(e)[:200])); return
+    rep.paths += len(outs); rep.absorb_vm(vm)
+    if len(outs) != 1 or outs[0][1] != 'ret':
+        rep.violated('C08.8 rescale_points (n=%d)' % n, 'lowrank.rescale.panic', 'rescale_points panics or forks on a finite window: %s' % [(k, str(v)[:100]) for (_, k, v) in outs][:2]); return
+    (m1, _, v) = outs[0]; stds, mu, dmo, gmo = [[x.v for x in deref_val(vm, m1, c).items] for c in v.f]
+    dr = [[deref_val(vm, m1, c).items[i].v for c in m1.mem[cd].items] for i in range(d)]; gr = [[deref_val(vm, m1, c).items[i].v for c in m1.mem[cg].items] for i in range(d)]
+    ax = _sqrt_axioms(A); bad = []
+    sq = [(args[0], term) for (nm, args, term) in A.used if nm == 'sqrt']
+    def ask(name, hyp, cond, key):
+        verdict, model = rep.check('C08.8 rescale_points n=%d: %s' % (n, name), pre + ax + hyp + [cond], timeout_ms=120000)
+        if verdict == 'violated':
+            md = {dd.name(): str(model[dd]) for dd in model.decls() if dd.arity() == 0}
+            bad.append(key); rep.violated('C08.8 n=%d %s' % (n, name), 'lowrank.rescale.' + key, 'rescale_points on a Gaussian window: %s fails: %s' % (name, md), model=md)
+        return verdict == 'holds'
+    for i in range(d):
+        s_ = sd[i]; xbar = sum(xs[i]) / n
+        # the ratio of the variances under the outer square roots is s^4 (the inner sqrt argument is found among the sqrt terms the code built)
+        inner = [a for (a, t) in sq if z3.eq(t, [a2 for (a2, t2) in sq if z3.eq(t2, stds[i])][0])] if any(z3.eq(t2, stds[i]) for (a2, t2) in sq) else []
+        if not inner: rep.violated('C08.8 n=%d scale' % n, 'lowrank.rescale.scale', 'the scale of coordinate %d is not the square root of the square root of a variance ratio' % i); return
+        q = inner[0]
+        ok = ask('coordinate %d: var(draws)/var(gradients) = s^4' % i, [], q != s_ * s_ * s_ * s_, 'ratio')
+        hyp = [q == s_ * s_ * s_ * s_]
+        ok = ok and ask('coordinate %d: scale = s' % i, hyp, stds[i] != s_, 'scale')
+        hyp = [stds[i] == s_]
+        if ok: ok = ask('coordinate %d: translation = mean of the Gaussian' % i, hyp, mu[i] != mean[i], 'translation')
+        if ok:
+            hyp = hyp + [mu[i] == mean[i]]
+            ask('coordinate %d: rescaled centred draws are (x_j - mean(x))/s and the gradients their negation' % i, hyp,
+                z3.Or(*([dr[i][j] != (xs[i][j] - xbar) / s_ for j in range(n)] + [gr[i][j] != -dr[i][j] for j in range(n)])), 'whitened')
+            ask('coordinate %d: reported pre-centring means are (mean(x) - m)/s and its negation' % i, hyp, z3.Or(dmo[i] != (xbar - mean[i]) / s_, gmo[i] != -(xbar - mean[i]) / s_), 'means')
+    if not bad: rep.holds('C08.8 rescale_points on %d Gaussian draws x %d coordinates: scale = s, translation = m, whitened gradients = -draws, reported means' % (n, d), time.time() - t0)
 
 def inner_matrix(rep, mir, L):
     """InnerMatrix::new - the representation invariant that C02 assumes for a low-rank factor: vals_sqrt = sqrt(lambda), vals_sqrt_inv x vals_sqrt = 1,
